@@ -40,7 +40,7 @@ def _failing(prop: str, prog: Program, tier: str) -> set[tuple[str, str, str]] |
         return f"ANALYSIS-ERROR {e}"
     except Exception as e:  # noqa: BLE001  (check.py turns these into exit 2 as well)
         return f"ANALYSIS-ERROR internal {type(e).__name__}: {e}"
-    return {o.ident() for o in ctx.obs if not o.ok}
+    return {o.ident() for o in ctx.obs if o.ok is False}
 
 
 def _run_one(args: tuple[str, int, str]) -> dict:
